@@ -262,23 +262,39 @@ theorem rk_var (v : VarDef) (hwf : WFVarDef W v) (hdead : varExprDeadB (toks (fm
 
 /-! ## Attributes -/
 
-def argsLvl : XArgs → Prop
-  | .nil => True
-  | .cons e r => e.lvl ≤ 14 ∧ argsLvl r
+/-- attribute arguments: any expressions the expression theorem covers (a comma expression is printed in parentheses
+since 2a6da39) -/
+def WFAttr (a : Attr) : Prop := WFA W a.args
 
-def WFAttr (a : Attr) : Prop := WFA W a.args ∧ argsLvl a.args
+theorem pos_attrArg (x : XExpr) (h : needParen x.prec attrArgPrec attrArgSide = false) : x.lvl ≤ 14 := by
+  cases x with
+  | lit l => simp only [XExpr.prec, XExpr.lvl, litPrec] at h ⊢ <;> generalize litNegative l = b at h ⊢ <;> cases b <;> revert h <;> decide
+  | un o _ => cases o <;> simp only [XExpr.prec, XExpr.lvl] at h ⊢ <;> revert h <;> decide
+  | bin o _ _ => cases o <;> simp only [XExpr.prec, XExpr.lvl] at h ⊢ <;> revert h <;> decide
+  | _ => simp only [XExpr.prec, XExpr.lvl] at h ⊢ <;> revert h <;> decide
 
-/-- an attribute argument (printed with `format_expression`) in front of `,` or `)`, read without comma operator -/
-theorem attrArg_reads (e : XExpr) (hwf : WF W e) (hl : e.lvl ≤ 14) (c : Tok) (hc : c = .p .Comma ∨ c = .p .RightParen)
-    (rest : List Tok) (hsafe : hasLt e = true → TmplFree (toks (fmtExprX e) ++ c :: rest) = true) :
-    ∃ N, ∀ f, N ≤ f → xparseLvl W f 15 callArgTerminator (toks (fmtExprX e) ++ c :: rest) = some (e, c :: rest) := by
+/-- an expression printed at a position `(outer, side)` that parenthesises the comma operator, in front of `,` or `)`, read
+without comma operator (`parse_expression_no_seq`) -/
+theorem argPos_reads (outer : Nat) (side : Side) (hpo : PosOk outer side)
+    (hpos : ∀ x : XExpr, needParen x.prec outer side = false → x.lvl ≤ 14)
+    (e : XExpr) (hwf : WF W e) (c : Tok) (hc : c = .p .Comma ∨ c = .p .RightParen)
+    (rest : List Tok) (hsafe : hasLt e = true → TmplFree (toks (fmtSubX e outer side) ++ c :: rest) = true) :
+    ∃ N, ∀ f, N ≤ f → xparseLvl W f 15 .Sequence (toks (fmtSubX e outer side) ++ c :: rest) = some (e, c :: rest) := by
   have hcl : Closes .Sequence c rest := by
     rcases hc with h | h
     · exact Or.inr (Or.inr (Or.inr (Or.inr (Or.inl ⟨h, rfl⟩))))
     · exact Or.inl h
-  exact rt W e hwf 15 .Sequence (c :: rest) (e, c :: rest) (fun h => by cases h) (lvl_le e) (Nat.le_refl _)
-    (fun h => by omega) (noLow_closes W _ _ _ _ hcl) hsafe
-    (fin_self W e e.lvl 15 .Sequence _ (lvl_le e) (fun _ => inert_closes W _ _ _ _ hcl))
+  exact rts_self W (rt W e hwf) _ _ 15 .Sequence (c :: rest) (Nat.le_refl _)
+    (fun hp => ⟨by have := hpos e hp; omega, fun h => by have := hpos e hp; omega, fun h => by cases h⟩)
+    (fun hp => parenDead W e hwf (needParen_prec hpo hp) _) hsafe
+    (noLow_closes W _ _ _ _ hcl) (fun _ => inert_closes W _ _ _ _ hcl)
+
+/-- an attribute argument (printed with `format_subexpression(expr, 17, CommaList)`) in front of `,` or `)` -/
+theorem attrArg_reads (e : XExpr) (hwf : WF W e) (c : Tok) (hc : c = .p .Comma ∨ c = .p .RightParen)
+    (rest : List Tok) (hsafe : hasLt e = true → TmplFree (toks (fmtSubX e attrArgPrec attrArgSide) ++ c :: rest) = true) :
+    ∃ N, ∀ f, N ≤ f → xparseLvl W f 15 callArgTerminator (toks (fmtSubX e attrArgPrec attrArgSide) ++ c :: rest) =
+      some (e, c :: rest) :=
+  argPos_reads W _ _ (Or.inl (by decide)) pos_attrArg e hwf c hc rest hsafe
 
 def AA1 : XArgs → Prop
   | .nil => True
@@ -287,28 +303,28 @@ def AA1 : XArgs → Prop
       ∃ N, ∀ f, N ≤ f →
         xparseArgs1 W f (toks (fmtAttr.fmtAttrArgs (.cons e r)) ++ .p .RightParen :: rest) = some (.cons e r, rest)
 
-theorem aa1 : (a : XArgs) → WFA W a → argsLvl a → AA1 W a
-  | .nil, _, _ => trivial
-  | .cons e .nil, hw, hl => by
+theorem aa1 : (a : XArgs) → WFA W a → AA1 W a
+  | .nil, _ => trivial
+  | .cons e .nil, hw => by
     intro rest hsafe
-    obtain ⟨N, h⟩ := attrArg_reads W e hw.1 hl.1 _ (Or.inr rfl) rest
+    obtain ⟨N, h⟩ := attrArg_reads W e hw.1 _ (Or.inr rfl) rest
       (fun hlt => by simpa [fmtAttr.fmtAttrArgs] using hsafe (by simp [hasLtArgs, hlt]))
     refine ⟨N + 1, fun f hf => ?_⟩
     obtain ⟨f', rfl, hf'⟩ := succ_of_pos hf
     unfold xparseArgs1
     simp [fmtAttr.fmtAttrArgs, h f' hf']
-  | .cons e (.cons e' r'), hw, hl => by
+  | .cons e (.cons e' r'), hw => by
     intro rest hsafe
-    have htoks : toks (fmtAttr.fmtAttrArgs (.cons e (.cons e' r'))) = toks (fmtExprX e) ++
+    have htoks : toks (fmtAttr.fmtAttrArgs (.cons e (.cons e' r'))) = toks (fmtSubX e attrArgPrec attrArgSide) ++
         (.p .Comma :: toks (fmtAttr.fmtAttrArgs (.cons e' r'))) := by
       simp [fmtAttr.fmtAttrArgs, comma, pp]
     rw [htoks] at hsafe ⊢
     simp only [List.append_assoc, List.cons_append] at hsafe ⊢
-    obtain ⟨N2, h2⟩ := aa1 (.cons e' r') hw.2 hl.2 rest (fun hlt => tmplFree_suffix
+    obtain ⟨N2, h2⟩ := aa1 (.cons e' r') hw.2 rest (fun hlt => tmplFree_suffix
       ((List.suffix_cons _ _).trans (List.suffix_append _ _)) (hsafe (by
         simp only [hasLtArgs, Bool.or_eq_true] at hlt ⊢
         exact Or.inr hlt)))
-    obtain ⟨N1, h1⟩ := attrArg_reads W e hw.1 hl.1 _ (Or.inl rfl) (toks (fmtAttr.fmtAttrArgs (.cons e' r')) ++ .p .RightParen :: rest)
+    obtain ⟨N1, h1⟩ := attrArg_reads W e hw.1 _ (Or.inl rfl) (toks (fmtAttr.fmtAttrArgs (.cons e' r')) ++ .p .RightParen :: rest)
       (fun hlt => hsafe (by simp [hasLtArgs, hlt]))
     refine ⟨max N1 N2 + 1, fun f hf => ?_⟩
     obtain ⟨f', rfl, hf'⟩ := succ_of_pos hf
@@ -326,8 +342,8 @@ theorem toks_fmtAttr (a : Attr) : toks (fmtAttr a) =
 
 theorem attrArgs_head (e : XExpr) (r : XArgs) (hw : WF W e) :
     ∃ t ts', toks (fmtAttr.fmtAttrArgs (.cons e r)) = t :: ts' ∧ t ≠ .p .RightParen := by
-  obtain ⟨t, ts', h1, h2⟩ := exprHead_fmt W e hw topPrec topSide
-  have h1' : toks (fmtExprX e) = t :: ts' := h1
+  obtain ⟨t, ts', h1, h2⟩ := exprHead_fmt W e hw attrArgPrec attrArgSide
+  have h1' : toks (fmtSubX e attrArgPrec attrArgSide) = t :: ts' := h1
   have hne : t ≠ .p .RightParen := by
     rcases h2 with ⟨n, rfl⟩ | ⟨l, rfl⟩ | rfl | ⟨op, h⟩ | rfl
     · intro h; cases h
@@ -340,12 +356,12 @@ theorem attrArgs_head (e : XExpr) (r : XArgs) (hw : WF W e) :
   | cons e' r' => exact ⟨t, _, by simp [fmtAttr.fmtAttrArgs, h1']; rfl, hne⟩
 
 /-- the arguments of an attribute after `(` -/
-theorem attrArgs_read (e : XExpr) (r : XArgs) (hw : WFA W (.cons e r)) (hl : argsLvl (.cons e r)) (rest : List Tok)
+theorem attrArgs_read (e : XExpr) (r : XArgs) (hw : WFA W (.cons e r)) (rest : List Tok)
     (hsafe : hasLtArgs (.cons e r) = true →
       TmplFree (toks (fmtAttr.fmtAttrArgs (.cons e r)) ++ .p .RightParen :: rest) = true) :
     ∃ N, ∀ f, N ≤ f → xparseArgs W f (toks (fmtAttr.fmtAttrArgs (.cons e r)) ++ .p .RightParen :: rest) =
       some (.cons e r, rest) := by
-  obtain ⟨N, h⟩ := aa1 W (.cons e r) hw hl rest hsafe
+  obtain ⟨N, h⟩ := aa1 W (.cons e r) hw rest hsafe
   obtain ⟨t, ts', ht, hne⟩ := attrArgs_head W e r hw.1
   refine ⟨N + 1, fun f hf => ?_⟩
   obtain ⟨f', rfl, hf'⟩ := succ_of_pos hf
@@ -360,11 +376,11 @@ theorem attrArgs_read (e : XExpr) (r : XArgs) (hw : WFA W (.cons e r)) (hl : arg
 theorem attr_reads (a : Attr) (hw : WFAttr W a) (rest : List Tok)
     (hsafe : hasLtArgs a.args = true → TmplFree (toks (fmtAttr a) ++ rest) = true) :
     ∃ N, ∀ f, N ≤ f → parseAttr W f ((toks (fmtAttr a)).tail ++ rest) = some (a, rest) := by
-  obtain ⟨hwa, hl⟩ := hw
+  have hwa : WFA W a.args := hw
   rw [toks_fmtAttr] at hsafe ⊢
   simp only [List.tail_cons]
   obtain ⟨name, args, double⟩ := a
-  simp only [] at hwa hl hsafe ⊢
+  simp only [] at hwa hsafe ⊢
   cases args with
   | nil =>
     refine ⟨0, fun f _ => ?_⟩
@@ -373,14 +389,14 @@ theorem attr_reads (a : Attr) (hw : WFAttr W a) (rest : List Tok)
     cases double with
     | false =>
       simp only [Bool.false_eq_true, if_false, List.nil_append, List.cons_append, List.append_assoc] at hsafe ⊢
-      obtain ⟨N, h⟩ := attrArgs_read W e r hwa hl (.p .RightSquareBracket :: rest) (fun hlt => tmplFree_suffix
+      obtain ⟨N, h⟩ := attrArgs_read W e r hwa (.p .RightSquareBracket :: rest) (fun hlt => tmplFree_suffix
         ((List.suffix_cons _ _).trans ((List.suffix_cons _ _).trans (List.suffix_cons _ _))) (hsafe hlt))
       refine ⟨N, fun f hf => ?_⟩
       unfold parseAttr
       simp [h f hf]
     | true =>
       simp only [if_true, List.cons_append, List.nil_append, List.append_assoc] at hsafe ⊢
-      obtain ⟨N, h⟩ := attrArgs_read W e r hwa hl (.p .RightSquareBracket :: .p .RightSquareBracket :: rest) (fun hlt => tmplFree_suffix
+      obtain ⟨N, h⟩ := attrArgs_read W e r hwa (.p .RightSquareBracket :: .p .RightSquareBracket :: rest) (fun hlt => tmplFree_suffix
         ((List.suffix_cons _ _).trans ((List.suffix_cons _ _).trans ((List.suffix_cons _ _).trans (List.suffix_cons _ _)))) (hsafe hlt))
       refine ⟨N, fun f hf => ?_⟩
       unfold parseAttr
